@@ -174,7 +174,7 @@ PlusV(ch) ==
 ObsOK(o, x, same, E) ==
   IF x = <<>> THEN
     /\ o.nil /\ o.str = <<>> /\ o.chain = <<>> /\ o.cause = <<>> /\ o.cb
-    /\ ~o.hs /\ o.site = 0 /\ o.pvsite = 0 /\ o.pv = <<>>
+    /\ ~o.hs /\ o.site = 0 /\ o.pvsite = 0 /\ o.stsite = 0 /\ o.pv = <<>>
     /\ o.is = [j \in 1..Len(E) |-> E[j] = <<>>]
     /\ o.asc = -1 /\ o.asty = -1 /\ o.fs = <<>> /\ o.fv = <<>> /\ ~o.fbad /\ o.same = same
   ELSE
@@ -183,7 +183,7 @@ ObsOK(o, x, same, E) ==
     /\ o.chain = [i \in 1..Len(x) |-> ErrorStr(SubSeq(x, i, Len(x)))]   \* Unwrap, step by step
     /\ o.cause = x[Len(x)].m /\ o.cb                             \* Cause() is the innermost error itself
     /\ o.hs = HasStack(x)                                        \* GetFullStack non-empty
-    /\ o.site = SiteOf(x) /\ o.pvsite = SiteOf(x)                \* the stack starts where it was attached
+    /\ o.site = SiteOf(x) /\ o.pvsite = SiteOf(x) /\ o.stsite = SiteOf(x)   \* the stack starts where it was attached
     /\ o.pv = PlusV(x)
     /\ o.is = [j \in 1..Len(E) |-> IsF(x, E[j])]
     /\ o.asc = AsStatus(x) /\ o.asty = AsTyped(x)
